@@ -464,7 +464,14 @@ const nearGrammar = "/:;<=>?@*,DFdf^`OolI\x10\x15\x19\x20\x70\x75\x79\xb0\xb5\xb
 const mutChars = "0123456789.eE+-_ x\x00infatyINFATY"
 
 func genInvalidCandidate(t *rapid.T) string {
-	switch ir(t, 0, 5, "invKind") {
+	switch ir(t, 0, 6, "invKind") {
+	case 6:
+		// the special words with one letter's bits disturbed (top bit set, case bit and a neighbour bit, a
+		// look-alike letter), with an optional sign: a case fold by mask (c&0x5f, c|0x20) accepts some of them
+		w := []byte(randCase(t, []string{"inf", "nan", "infinity", "inf", "nan"}[ir(t, 0, 4, "word")]))
+		pos := ir(t, 0, len(w)-1, "pos")
+		w[pos] ^= []byte{0x80, 0x80, 0x40, 0x10, 0x01, 0x02, 0xa0}[ir(t, 0, 6, "bit")]
+		return []string{"", "+", "-"}[ir(t, 0, 2, "sign")] + string(w)
 	case 0:
 		return string(ubytes(t, ir(t, 0, 12, "n"), "raw"))
 	case 1:
